@@ -228,6 +228,7 @@ let () =
                    { mo with to_pi_lines = model_lines_pi legacy c p io.to_pi_lines; to_pi_has_rtl = h; to_pi_dir = d }
                  | Panic _ -> mo) in
                let diffs = diff_obs mo io in
+               let diffs = if (not legacy) && not (lI_check c) then "model.li" :: diffs else diffs in
                let jf = ref [] in
                let j name f = if not (f c io) then jf := name :: !jf in
                j "C01" c01_judge; j "C02" c02_judge; j "C03" c03_judge; j "C04" c04_judge; j "C05" c05_judge;
